@@ -120,7 +120,7 @@ RetOf(self, ops, st) ==
 (*   tx : [kind, from, to, ckind, ops, lc, gas]                              *)
 (*   kind  "create" | "call"                                                 *)
 (*   ckind (creates) "cell" | "probe" | "bad" | "ctrl"                       *)
-(*   gas   "ample" | "tiny" (below the intrinsic cost: invalid transaction)  *)
+(*   gas   "ample" | "max" (saturated allowance, 2^64-1) | "tiny" (below the intrinsic cost: invalid transaction)  *)
 (*   lc    a ledger call record or NULL (see Ledger section)                 *)
 (* Result: [valid, status, logs, created, world]                             *)
 
@@ -312,7 +312,7 @@ ProbeWrite(w, tx, hash, ts) ==
 Append1(c, w, id, tx, insc, hash, ts, out) ==
   [c |-> [n |-> c.n + 1, hash |-> Resolve(hash, NextH), ts |-> ts,
           txs |-> Append(c.txs, TxRec(id, tx, insc, Nonce(w, tx.from), out))],
-   w |-> IF tx.kind = "call" /\ tx.gas = "ample" /\ Code(w, tx.to) = "probe" /\ out.status = 1
+   w |-> IF tx.kind = "call" /\ tx.gas \in {"ample", "max"} /\ Code(w, tx.to) = "probe" /\ out.status = 1
          THEN ProbeWrite(out.world, tx, Resolve(hash, NextH), ts)
          ELSE out.world]
 
